@@ -55,7 +55,8 @@ type c11DB struct {
 	rows      []*c11Row
 	connFails int // the first connFails connection attempts fail
 	conns     int
-	delFails  int // the first delFails DELETE executions fail
+	delFails  int  // the first delFails DELETE executions fail
+	badConn   bool // ... with driver.ErrBadConn (the connection died) rather than a statement error
 	dels      int
 	openConns int
 	badDelete bool // a DELETE arrived that the stub cannot interpret
@@ -114,6 +115,9 @@ func (s *c11Stmt) Exec(args []driver.Value) (driver.Result, error) {
 	}
 	s.db.dels++
 	if s.db.dels <= s.db.delFails {
+		if s.db.badConn {
+			return nil, driver.ErrBadConn
+		}
 		return nil, errors.New("injected: delete failed")
 	}
 	// branch_id IN (<list>) AND xid IN (<list>): MySQL compares the text with the column
@@ -152,6 +156,7 @@ func VerifC11Worker() {
 	dbs := map[string]*c11DB{"resA": {name: "resA"}, "resB": {name: "resB"}}
 	dbs["resA"].connFails = vrt.Choice("resA.connFails", 2)
 	dbs["resA"].delFails = vrt.Choice("resA.deleteFails", 2)
+	dbs["resA"].badConn = dbs["resA"].delFails > 0 && vrt.Bool("resA.deleteFailsWithBadConn")
 	mgr := &ATSourceManager{resourceCache: sync.Map{}, basic: datasource.NewBasicSourceManager(), rmRemoting: rm.GetRMRemotingInstance()}
 	resources := map[string]*DBResource{}
 	for name, d := range dbs {
